@@ -105,7 +105,7 @@ bool BlockingWorld::on_block_tcp(Conn &c, BlockWhat w) {
 		if (k) N.deliver(c, k);
 		progress_ += k;
 		// the fault counts as one that hit the call only if it cut the reply short (a close / reset after the last byte leaves a complete reply)
-		if (progress_ < reply_len_) fault_fired = true; else K.count("probe.fault_after_complete_reply"); // (bytes the server sent after the reply do not count)
+		if (progress_ < reply_len_) fault_fired = true; else { K.count("probe.fault_after_complete_reply"); if (env.fault == 2) fault_ambiguous = true; } // (bytes the server sent after the reply do not count)
 		if (env.fault == 1) { N.srv_close(c); c.s2c_all.resize(c.s2c_arrived); N.deliver(c, 0); K.count("fault.close"); }
 		else { N.srv_reset(c); K.count("fault.reset"); }
 		return true;
@@ -146,7 +146,7 @@ bool BlockingWorld::on_block_http(Xfer &x) {
 		size_t k = env.fault_at > progress_ ? env.fault_at - progress_ : 0;
 		if (k) C.deliver(x, k);
 		progress_ += k;
-		if (x.inflight() > 0) fault_fired = true; else K.count("probe.fault_after_complete_reply");
+		if (x.inflight() > 0) fault_fired = true; else { K.count("probe.fault_after_complete_reply"); if (env.fault == 2) fault_ambiguous = true; }
 		if (env.fault == 1) { C.srv_close(x); K.count("fault.close"); } else { C.srv_reset(x); K.count("fault.reset"); }
 		return true;
 	}
